@@ -213,7 +213,7 @@ func newSess(run *vh.Run, univ [][]byte, cacheH int) *sess {
 		s.tr.CacheHeightLimit = cacheH
 	}
 	// the updatedNodes bookkeeping is followed on the sessions with small universes and no live cache
-	s.track = cacheH == 0 && len(univ) <= 40 && run.Rng.Intn(6) == 0
+	s.track = cacheH == 0 && len(univ) <= 40 && run.Rng.Intn(8) == 0
 	if s.track {
 		s.op(fmt.Sprintf("new %d w", cacheH), "ok", false)
 	} else {
@@ -606,7 +606,7 @@ func (s *sess) sbatchAt(path string, hash []byte) [][]byte {
 
 // storeLayer: after a commit, walk down the committed tree through the real store, batch by batch.
 func (s *sess) storeLayer() {
-	if s.run.Rng.Intn(12) != 0 {
+	if s.run.Rng.Intn(16) != 0 {
 		return
 	}
 	rng := s.run.Rng
@@ -650,7 +650,7 @@ func (s *sess) storeLayer() {
 	if len(s.univ) == 0 {
 		return
 	}
-	for n := 0; n < 2; n++ {
+	for n := 0; n < 1; n++ {
 		k := s.univ[rng.Intn(len(s.univ))]
 		var rec [][2][]byte
 		s.store.rec = &rec
@@ -671,12 +671,19 @@ func (s *sess) storeLayer() {
 		if len(root) != 0 {
 			rs = hex.EncodeToString(root)
 		}
+		if len(rec) > 16 && !rng.Chance(1, 4) {
+			// long paths make long op lines (one stored batch per 4 levels): most of them are left out
+			if err != nil {
+				s.fail(fmt.Sprintf("fresh instance at the committed root cannot read %x: %v", k, err))
+			}
+			continue
+		}
 		s.op("sget "+rs+" "+hex.EncodeToString(k)+" "+strings.Join(parts, " "), out, len(v) != 0)
 		s.run.Count(fmt.Sprintf("sget-batches-read=%d", min(len(rec), 8)))
 		if err != nil {
 			s.fail(fmt.Sprintf("fresh instance at the committed root cannot read %x: %v", k, err))
 		}
-		if len(rec) > 0 && rng.Chance(1, 2) {
+		if len(rec) > 0 && rng.Chance(1, 3) {
 			// withhold one of the pairs: the real trie on such a store and the model must both fail
 			drop := rng.Intn(len(rec))
 			mem := db.NewDB(db.MemoryImpl, "")
